@@ -108,6 +108,51 @@ func c17KZGBatch(rep *Report, rng *RNG) {
 			rep.Fail("c17:kzg-batch:verdicts-differ", fmt.Sprintf("%s: native accepts=%v, in-circuit accepts=%v", what, nat == nil, cir == nil), nil)
 		}
 	}
+	// the adaptive prover, values only: lie on evaluation `lie`, learn the folding coefficient, compensate on evaluation `fix`
+	// (sum of weighted claimed values unchanged): works only if the coefficient does not depend on opening `fix`
+	for _, lf := range [][2]int{{1, 0}, {0, 1}, {2, 1}, {1, 2}} {
+		lie, fix := lf[0], lf[1]
+		c2, p2, pt2 := fresh()
+		var delta fr_bls12377.Element
+		delta.SetUint64(77)
+		p2[lie].ClaimedValue.Add(&p2[lie].ClaimedValue, &delta)
+		var seen []*big.Int
+		kzg.VerifTraceHook = func(ev string, limbs []frontend.Variable) {
+			if ev == "fold-multi-lambda" && seen == nil {
+				for _, l := range limbs {
+					b, _ := toBigVar(l)
+					seen = append(seen, b)
+				}
+			}
+		}
+		_ = inCircuit(c2, p2, pt2)
+		kzg.VerifTraceHook = nil
+		if seen == nil {
+			rep.Fail("harness:kzg-hook", "folding coefficient not observed", nil)
+			continue
+		}
+		v := new(big.Int)
+		for i := len(seen) - 1; i >= 0; i-- {
+			v.Lsh(v, 64).Add(v, seen[i])
+		}
+		var lambda fr_bls12377.Element
+		lambda.SetBigInt(v)
+		w := make([]fr_bls12377.Element, n)
+		w[0].SetOne()
+		for i := 1; i < n; i++ {
+			w[i].Mul(&w[i-1], &lambda)
+		}
+		var comp fr_bls12377.Element
+		comp.Div(&w[lie], &w[fix]).Mul(&comp, &delta)
+		p2[fix].ClaimedValue.Sub(&p2[fix].ClaimedValue, &comp)
+		nat, cir := kzg_bls12377.BatchVerifyMultiPoints(c2, p2, pt2, srs.Vk), inCircuit(c2, p2, pt2)
+		name := fmt.Sprintf("false evaluation %d compensated on evaluation %d", lie, fix)
+		rep.Eval("kzg-batch|"+name, true)
+		rep.Count(fmt.Sprintf("kzg-batch-adaptive-values:native=%v,circuit=%v", nat == nil, cir == nil))
+		if (nat == nil) != (cir == nil) {
+			rep.Fail("c17:kzg-batch:forged-accepted", fmt.Sprintf("%s (after learning the folding coefficient): native accepts=%v, in-circuit accepts=%v", name, nat == nil, cir == nil), nil)
+		}
+	}
 	// the adaptive prover: lie on evaluation `lie`, repair with quotients a and b
 	for _, ab := range [][3]int{{1, 2, 1}, {1, 0, 1}, {1, 2, 0}, {0, 1, 2}} {
 		lie, a, b := ab[0], ab[1], ab[2]
